@@ -40,6 +40,9 @@ func isMidiPathClass(cl *chanClass) bool {
 		return true // generic fan-out instantiated for midi.Event
 	case pkgAlsa, pkgMidi:
 		return isBytes || isEvent
+	case pkgDevice:
+		// a queue of its own that a device puts between its emitters and the shared output (used: somebody sends or receives)
+		return isEvent && (len(cl.Sends) > 0 || len(cl.Recvs) > 0)
 	}
 	return false
 }
@@ -209,7 +212,11 @@ func ruleForwardOnce(c *Ctx, cf *chanFlow, classes []*chanClass) {
 			}
 			top := topFunc(r.Fn)
 			if top.Pkg != nil && top.Pkg.Pkg.Path() == pkgDevice {
-				continue // end consumer, not a relay
+				mk := topFunc(cl.Makes[0].Fn)
+				if mk.Pkg == nil || mk.Pkg.Pkg.Path() != pkgDevice {
+					continue // end consumer (the device's MIDI input), not a relay
+				}
+				// the receiver of a channel the device package makes itself: a relay of the device's own output queue
 			}
 			relay[r.Fn] = true
 		}
